@@ -128,6 +128,8 @@ def run(c):
     c.assumptions += ['the partition space is exhausted on the symbolic models (all chunk lengths 0..bound, bound = 2 blocks + 5; copy/duplex 1 block + 5); the real library is driven through every (count, call length) transition class and seeded random histories',
                       'byte VALUES are sampled']
     c.tv(p, 'rel', 'chunk', max_cost=25.0)
+    if not th:
+        c.tv_sample(p, 'chunk', ('c32', 'c64', 'dxor'), k=60, max_cost=15.0, pred=lambda cs: cs[1] < 3)   # the byte helpers behind partial blocks differ per back end
     if th:
         for fl in ('c32', 'dxor', 'c64'):
             c.tv(p, fl, 'chunk', max_cost=25.0)
